@@ -75,3 +75,29 @@ def validate_batches(ctx, module, batches, envkey="BATCH", jobs=8, timeout=3000)
         return path, r, rej, skipped
     with ThreadPoolExecutor(max_workers=jobs) as ex:
         return list(ex.map(one, batches))
+
+
+NEST3_BODIES = ('"<" ~ r1 ~ ">"', 'r1 ~ ("," ~ r1)*', '&r1 ~ r1', '!("q" ~ r1) ~ r1 ~ r1?', '&(!"q" ~ r1) ~ r1', '&(&r1 ~ r1) ~ r1', '!(!r1 ~ "q") ~ r1',
+                # a sequence abandoned AFTER a rule in it has matched, the failure absorbed by ? / * / | inside the same rule
+                '(r1 ~ ";")? ~ r1', '(r1 ~ ";")* ~ r1 ~ "."?', 'r1 ~ ";" ~ "." | r1')
+NEST3_INPUTS = ("<x>", "<x-x,x>", "x,x", "x-x", "<x,x y>", "<x, x-xy>", "x", "<xy,xy>", "x,x,x-x", "< x >", "<x\u00e9Z>", "x\u00e9z,x\u00e9z",
+                "x;x", "x;x;x,x", "xy;x-x", "x;", "x;x.")
+
+
+def nest3_file(path, bodies=NEST3_BODIES, inputs=NEST3_INPUTS):
+    """Rule calls three deep under every triple of modifiers (150 x len(bodies) grammars): a rule that runs silenced
+    (atomic context, look-ahead) with emitting `$` / `!` rules below it, calls under ? and *, a case-insensitive
+    multi-byte literal at the bottom."""
+    n = 0
+    with open(path, "w") as f:
+        for t0 in ("", "_", "@", "$", "!"):
+            for t1 in ("", "_", "@", "$", "!"):
+                for t2 in ("", "_", "@", "$", "!"):
+                    # under a normal r2 the bottom rule is also tried as a `!` rule: an optional call that changes the
+                    # atomicity as the LAST thing a token-less normal rule does
+                    for t3 in (("", "!") if t2 == "" else ("",)):
+                        for body0 in bodies:
+                            text = 'r0 = %s{ %s }\nr1 = %s{ r2 ~ ("," ~ r2)* }\nr2 = %s{ "x" ~ ("-" ~ "x")? ~ r3? }\nr3 = %s{ "y" | ^"\u00e9z" }\nWHITESPACE = _{ " " }\n' % (t0, body0, t1, t2, t3)
+                            f.write(json.dumps({"text": text, "cases": [{"start": "r0", "inp": [ord(c) for c in i], "exp": {"k": "unknown"}} for i in inputs]}) + "\n")
+                            n += 1
+    return n
